@@ -17,6 +17,7 @@ import numpy as np
 
 from .. import core, encode, inputs, pool
 from . import c03
+from . import rel_common as rc
 
 TLA, CFG = "Trace_Distance.tla", "Trace_Distance.cfg"
 
@@ -28,9 +29,12 @@ def exec_retrieve(job):
     n = len(job["K"])
     rec = dict(fn=job["fn"], kind="retrieve", mode=mode, n=n, Lm=c03.lm_of(job["K"]),
                raised="", malformed="", D=[], B=[], P=[], paths=[])
-    A = c03.input_of(job["K"], mode)
+    # same matrix, other argument dtype / memory layout (rel_common; Lm above stays exact)
+    A = rc.as_variant(c03.input_of(job["K"], mode), job.get("dtype", "float64"), job.get("layout", "C"))
     try:
-        SPL, hops, Pmat = bct.distance_wei_floyd(A.copy(), transform=c03.TRANSFORM[mode])
+        SPL, hops, Pmat = bct.distance_wei_floyd(A, transform=c03.TRANSFORM[mode])
+        if job.get("out_layout"):           # hops / Pmat handed on as Fortran-ordered arrays
+            hops, Pmat = np.asfortranarray(hops), np.asfortranarray(Pmat)
         paths = [[bct.retrieve_shortest_path(s, t, hops, Pmat) for t in range(n)] for s in range(n)]
     except pool.CallTimeout:
         raise
@@ -49,14 +53,13 @@ def exec_retrieve(job):
 
 def exec_nav(job):
     import bct
-    L = np.array(job["L"], dtype=float)
-    Dm = np.array(job["Dm"], dtype=float)
+    L = rc.as_variant(np.array(job["L"], dtype=float), job.get("dtype", "float64"), job.get("layout", "C"))
+    Dm = rc.as_variant(np.array(job["Dm"], dtype=float), job.get("dm_dtype", "float64"), job.get("dm_layout", "C"))
     n = len(L)
     rec = dict(fn="navigation_wu", kind="nav", n=n, L=job["L"], Dm=job["Dm"], maxh=job["maxh"],
                raised="", malformed="", sr=-1, PLb=[], PLw=[], PLd=[], paths=[])
     try:
-        sr, PLb, PLw, PLd, paths = bct.navigation_wu(L.copy(), Dm.copy(),
-                                                     max_hops=None if job["maxh"] < 0 else job["maxh"])
+        sr, PLb, PLw, PLd, paths = bct.navigation_wu(L, Dm, max_hops=None if job["maxh"] < 0 else job["maxh"])
     except pool.CallTimeout:
         raise
     except Exception as e:
@@ -79,9 +82,17 @@ def exec_job(job):
 
 
 # -------------------------------------------------------------------- inputs
-def retrieve_job(K, mode, src):
+def retrieve_job(K, mode, src, variant=rc.PLAIN, out_layout=0):
     tr = {"bin": "none", "len": "none", "inv": "inv", "log": "log"}[mode]
-    return dict(fn="retrieve_shortest_path:" + tr, kind="retrieve", mode=mode, K=K, src_kind=src)
+    return dict(fn="retrieve_shortest_path:" + tr, kind="retrieve", mode=mode, K=K, src_kind=src,
+                dtype=variant[0], layout=variant[1], out_layout=out_layout)
+
+
+def retrieve_variant(rng, K, mode, src, p_plain=0.3):
+    dt, lay = rc.draw_variant(rng, c03.dtype_family(mode, K), p_plain)
+    # what distance_wei_floyd may be handed for this draw: c03.arg_dtype (no bool, no float32 -
+    # 1e-10 tie tolerance -, uint8 only without a transform, where it copies to float first)
+    return retrieve_job(K, mode, src, (c03.arg_dtype("distance_wei_floyd", dt, mode), lay), rng.randrange(2))
 
 
 def sym_dist(rng, n, vals):
@@ -98,8 +109,23 @@ def grid_dist(rng, n):
     return [[abs(a[0] - b[0]) + abs(a[1] - b[1]) for b in pts] for a in pts]
 
 
-def nav_job(L, Dm, maxh, src):
-    return dict(fn="navigation_wu", kind="nav", L=L, Dm=Dm, maxh=maxh, src_kind=src)
+def nav_job(L, Dm, maxh, src, variant=rc.PLAIN, dm_variant=rc.PLAIN):
+    return dict(fn="navigation_wu", kind="nav", L=L, Dm=Dm, maxh=maxh, src_kind=src,
+                dtype=variant[0], layout=variant[1], dm_dtype=dm_variant[0], dm_layout=dm_variant[1])
+
+
+def nav_variant(rng, L, Dm, maxh, src, p_plain=0.3):
+    """lengths and nodal distances are small non-negative integers: each argument gets its own
+    (dtype, layout) draw, so that e.g. an int32 length matrix meets an int64 distance matrix.
+    rel_common.admissible: navigation_wu accumulates path lengths in the arguments' dtypes and
+    its outputs are real-valued sums -> no unsigned type, no float32"""
+    (d1, l1), (d2, l2) = rc.draw_variant(rng, rc.DT_COUNT, p_plain), rc.draw_variant(rng, rc.DT_COUNT, p_plain)
+    return nav_job(L, Dm, maxh, src, (rc.admissible(d1), l1), (rc.admissible(d2), l2))
+
+
+def hop_dist(n, edges):
+    """nodal distance = |i - j| (a line embedding): a metric full of exact ties"""
+    return [[abs(i - j) for j in range(n)] for i in range(n)]
 
 
 def len_matrix(rng, n, edges, und, loops=0):
@@ -122,36 +148,47 @@ def build_jobs(ctx):
     # ---- retrieve_shortest_path over distance_wei_floyd
     plan = [("dir", 3, None, 3), ("dir", 4, 300 if q else None, 1 if q else 2),
             ("und", 4, None, 3), ("und", 5, 150 if q else None, 1 if q else 2)]
-    c = 0
     for kind, n, cap, reps in plan:
         graphs = inputs.model_graphs(ctx, kind, n)
         if cap:
             graphs = inputs.sample(rng, graphs, cap)
         for edges in graphs:
-            for _ in range(reps):
-                mode = modes[c % 4]
-                c += 1
+            for mode in rng.sample(modes, reps):
                 jobs.append(retrieve_job(c03.code_matrix(rng, n, edges, kind == "und", mode), mode, "model"))
     for edges in inputs.sample(rng, inputs.model_graphs(ctx, "dir", 3), 16 if q else 64):
         jobs.append(retrieve_job(c03.code_matrix(rng, 3, edges, False, "len", loops=1), "len", "model-loops"))
+    # a sample of the model inputs again as another argument dtype / memory layout
+    for j in inputs.sample(rng, [j for j in jobs if j["kind"] == "retrieve"], 250 if q else 2500):
+        jobs.append(retrieve_variant(rng, j["K"], j["mode"], j["src_kind"] + "-variant", p_plain=0.0))
     for k in range(80 if q else 1200):
         n = rng.randint(6, 9 if q else 12)
-        und = k % 2 == 0
+        und = rng.random() < 0.5
         p = rng.choice([0.12, 0.2, 0.35])
         edges = [(i, j) for i in range(n) for j in range(n)
                  if (i < j if und else i != j) and rng.random() < p]
-        mode = modes[k % 4]
-        jobs.append(retrieve_job(c03.code_matrix(rng, n, edges, und, mode), mode, "random"))
+        mode = rng.choice(modes)
+        K = c03.code_matrix(rng, n, edges, und, mode, loops=rng.choice([0, 0, 0, 1]), codes=c03.draw_codes(rng, mode))
+        jobs.append(retrieve_variant(rng, K, mode, "random"))
+    # structured families: long paths/cycles (paths of many hops), stars, complete (bipartite) graphs
+    # (maximal ties), caterpillars, rings of cliques, several components, isolated nodes
+    for k in range(90 if q else 1200):
+        name, n, edges = rc.structured_support(rng, 5, 9 if q else 12)
+        und = rng.random() < 0.5
+        if not und:
+            edges = rc.orient(rng, edges)
+        mode = rng.choice(modes)
+        K = c03.code_matrix(rng, n, edges, und, mode, loops=rng.choice([0, 0, 0, 1]), codes=c03.draw_codes(rng, mode))
+        jobs.append(retrieve_variant(rng, K, mode, "struct-" + name))
     # ---- tie-rich 'log' inputs: weights {1/2,1/4} (no zero lengths) on 5..7 nodes, where minimum
     #      paths of different edge counts tie exactly and the float sums of k*ln2 differ in the last bit
     for k in range(500 if q else 3000):
         n = rng.randint(5, 7)
-        und = k % 2 == 0
+        und = rng.random() < 0.5
         edges = [(i, j) for i in range(n) for j in range(n)
                  if (i < j if und else i != j) and rng.random() < 0.45]
         K = c03.code_matrix(rng, n, edges, und, "len")          # codes 1..3
         K = [[min(v, 2) for v in row] for row in K]             # -> k in {1,2}
-        jobs.append(retrieve_job(K, "log", "log-ties"))
+        jobs.append(retrieve_job(K, "log", "log-ties", ("float64", rng.choice(rc.LAYOUTS)), rng.randrange(2)))
     # ---- navigation_wu: enumerated graphs x nodal distances x finite max_hops
     for kind, n, cap, reps in [("und", 4, None, 4 if q else 40), ("dir", 3, None, 3 if q else 27),
                                ("dir", 4, 150 if q else 2000, 1), ("und", 5, 100 if q else None, 1)]:
@@ -163,39 +200,58 @@ def build_jobs(ctx):
                 L = len_matrix(rng, n, edges, kind == "und")
                 Dm = sym_dist(rng, n, [1, 2, 3]) if rng.random() < 0.6 else grid_dist(rng, n)
                 jobs.append(nav_job(L, Dm, rng.choice([0, 1, 2, n, 2 * n]), "model"))
-    # ---- max_hops=None where the greedy walk cannot cycle: forests and DAGs
+    for j in inputs.sample(rng, [j for j in jobs if j["kind"] == "nav"], 120 if q else 2000):
+        jobs.append(nav_variant(rng, j["L"], j["Dm"], j["maxh"], "model-variant", p_plain=0.0))
+    # ---- max_hops=None where the greedy walk cannot cycle: forests and DAGs (random, and the
+    #      structured trees: paths, stars, caterpillars with a long spine)
     for k in range(120 if q else 1500):
         n = rng.randint(3, 8)
         order = list(range(n))
         rng.shuffle(order)
         edges = []
-        if k % 2 == 0:                               # forest (undirected, acyclic)
+        shape = rng.choice(["forest", "dag", "path", "star", "caterpillar"])
+        und = shape != "dag"
+        if shape == "forest":                        # forest (undirected, acyclic)
             for idx in range(1, n):
                 if rng.random() < 0.8:
                     edges.append((order[idx], order[rng.randrange(idx)]))
-            und = True
-        else:                                        # DAG along a random order
+        elif shape == "dag":                         # DAG along a random order
             edges = [(order[a], order[b]) for a in range(n) for b in range(a + 1, n) if rng.random() < 0.4]
-            und = False
-        jobs.append(nav_job(len_matrix(rng, n, edges, und), grid_dist(rng, n) if k % 3 else sym_dist(rng, n, [1, 2, 3]),
-                            -1, "acyclic"))
-    # ---- random larger graphs, metric distances, self-loops, finite max_hops
+        else:
+            base = {"path": rc.s_path(n), "star": rc.s_star(n), "caterpillar": rc.s_caterpillar(rng, n)}[shape]
+            edges = [(order[a], order[b]) for a, b in base]
+        Dm = rng.choice([grid_dist, grid_dist, lambda r, m: sym_dist(r, m, [1, 2, 3]),
+                         lambda r, m: sym_dist(r, m, [1]), lambda r, m: hop_dist(m, None)])(rng, n)
+        jobs.append(nav_variant(rng, len_matrix(rng, n, edges, und), Dm, -1, "acyclic-" + shape))
+    # ---- random larger graphs and structured families, metric distances, self-loops, finite
+    #      max_hops incl. the boundaries 0, 1, n-1 (exactly enough on a path), n
     for k in range(100 if q else 1500):
-        n = rng.randint(5, 10)
-        und = k % 3 != 0
-        p = rng.choice([0.15, 0.3, 0.5])
-        edges = [(i, j) for i in range(n) for j in range(n)
-                 if (i < j if und else i != j) and rng.random() < p]
-        L = len_matrix(rng, n, edges, und, loops=1 if k % 10 == 0 else 0)
-        jobs.append(nav_job(L, grid_dist(rng, n), rng.choice([2, n, 3 * n]), "random"))
+        if rng.random() < 0.5:
+            n = rng.randint(5, 10)
+            und = rng.random() < 0.67
+            p = rng.choice([0.15, 0.3, 0.5])
+            edges = [(i, j) for i in range(n) for j in range(n)
+                     if (i < j if und else i != j) and rng.random() < p]
+            src = "random"
+        else:
+            name, n, edges = rc.structured_support(rng, 5, 10)
+            und = rng.random() < 0.67
+            if not und:
+                edges = rc.orient(rng, edges)
+            src = "struct-" + name
+        L = len_matrix(rng, n, edges, und, loops=rng.choice([0] * 9 + [1]))
+        Dm = grid_dist(rng, n) if rng.random() < 0.7 else hop_dist(n, None)
+        jobs.append(nav_variant(rng, L, Dm, rng.choice([0, 1, 2, n - 1, n, 3 * n]), src))
     return jobs
 
 
 # ----------------------------------------------------------------------- run
 def what(job, rec, clause):
+    v = "dtype=%s layout=%s" % (job.get("dtype", "float64"), job.get("layout", "C"))
     if job["kind"] == "nav":
-        return "n=%d max_hops=%s source=%s" % (len(job["L"]), job["maxh"], job.get("src_kind"))
-    return "mode=%s n=%d source=%s" % (job["mode"], len(job["K"]), job.get("src_kind"))
+        return "n=%d max_hops=%s source=%s %s Dm:%s/%s" % (len(job["L"]), job["maxh"], job.get("src_kind"), v,
+                                                          job.get("dm_dtype", "float64"), job.get("dm_layout", "C"))
+    return "mode=%s n=%d source=%s %s" % (job["mode"], len(job["K"]), job.get("src_kind"), v)
 
 
 def run(ctx):
@@ -203,7 +259,8 @@ def run(ctx):
     jobs = build_jobs(ctx)
     recs = pool.run_jobs(__name__, jobs)
     verdicts = ctx.validate(TLA, CFG, recs)
-    ctx.judge(jobs, recs, verdicts, what)
+    ctx.judge(jobs, rc.tag_failures(ctx, jobs, recs, verdicts), verdicts, what)
+    ctx.extra["argument_variants"] = rc.variant_counts(jobs)
     seen = set()
     for j, r in zip(jobs, recs):
         if r.get("raised") or r.get("malformed") or r.get("timeout"):
@@ -219,8 +276,13 @@ def run(ctx):
     ctx.rule = ("retrieve_shortest_path for all (s,t) on every digraph on 3 nodes, every graph on 4 nodes, %s "
                 "(TLC-enumerated; lengths {1,2,3}, 'inv'/'log' dyadic weights, 0/1) and seeded random graphs n<=%d; "
                 "navigation_wu on every graph on 4 nodes and digraph on 3 nodes (+ sampled larger) x integer nodal "
-                "distance matrices x max_hops in {0,1,2,n,2n}, max_hops=None on random forests and DAGs, random "
-                "graphs n<=10 with Manhattan distances; non-trivial = distinct input with a returned path of >= 3 "
+                "distance matrices x max_hops in {0,1,2,n,2n}, max_hops=None on random forests, DAGs, paths, stars and "
+                "caterpillars, random and structured graphs (paths, cycles, stars, complete, bipartite, rings of "
+                "cliques, several components) n<=10 with Manhattan / line / constant distances and max_hops in "
+                "{0,1,2,n-1,n,3n}; a sample of all inputs again as another argument dtype (uint8/int32/int64/float32 "
+                "where the values allow it, drawn separately for L and D) and memory layout (Fortran, transposed, "
+                "window, strided), hops/Pmat also passed on Fortran-ordered; all choices drawn from the seeded RNG; "
+                "non-trivial = distinct input with a returned path of >= 3 "
                 "nodes (navigation: and at least one failed pair)"
                 % ("sampled digraphs on 4 / graphs on 5 nodes" if ctx.quick else
                    "every digraph on 4 and graph on 5 nodes", 9 if ctx.quick else 12))
